@@ -172,6 +172,30 @@ func genInts(c *genCtx, sw *shardWriter, j *jb) {
 		withFollow(s, c.thorough())
 		emit("  " + s)
 	}
+	// a sign followed by every byte value, then digits (whitespace after the sign is not allowed)
+	for b := 0; b < 256; b++ {
+		for _, tail := range []string{"7", "0", "12 ", ""} {
+			emit("-" + string([]byte{byte(b)}) + tail)
+			emit(" -" + string([]byte{byte(b)}) + tail)
+			if c.thorough() || b < 0x40 {
+				emit("+" + string([]byte{byte(b)}) + tail)
+				emit(string([]byte{byte(b)}) + "-" + tail)
+			}
+		}
+	}
+	// leading whitespace of every length up to 24 before digit runs of every length up to 24 (to the end of input and not)
+	for k := 0; k <= 24; k++ {
+		for n := 1; n <= 24; n++ {
+			if !c.thorough() && (k+n)%3 != 0 && k+n != 19 && k+n != 18 && n != 18 && n != 19 {
+				continue
+			}
+			ws := string(bytes.Repeat([]byte(" "), k))
+			ds := "123456789012345678901234"[:n]
+			emit(ws + ds)
+			emit(ws + ds + ",")
+			emit(ws + "-" + ds)
+		}
+	}
 	for n := 1; n <= 24; n++ {
 		for _, d := range []byte("19") {
 			s := string(bytes.Repeat([]byte{d}, n))
